@@ -35,8 +35,22 @@ Obs(e) == [kind |-> e.kind, o |-> e.o, tag |-> e.tag, val |-> e.val]
 Next1 == l' = l + 1 /\ UNCHANGED <<ph, lk, host>>
 ToTake == ph' = "take" /\ lk' = 0 /\ UNCHANGED <<l, host>>
 
+\* Between two calls the validator forgets what nothing can refer to any more (see Compact), so that
+\* the cost of a step does not grow with the length of the history.  Only when it pays.
+GoneCount == Cardinality({t \in DOMAIN tasks : tasks[t].st = "gone"})
+Pinned == {registry[i].rid : i \in DOMAIN registry}
+NeedsGc == /\ GoneCount >= 24
+           /\ Cardinality(DOMAIN Compact(St, Pinned).tasks) + 12 <= Cardinality(DOMAIN tasks)
+Gc ==
+  /\ ph = "act" /\ run = NONE /\ l <= Len(Rec) /\ Line.e # "case"
+  /\ NeedsGc
+  /\ Put(Compact(St, Pinned))
+  /\ modelLog' = [i \in DOMAIN modelLog |-> [kind |-> "noop"]]      \* (only its length is used from here on)
+  /\ UNCHANGED <<run, phase, table, registry, tvars>>
+
 Act ==
   /\ ph = "act" /\ l <= Len(Rec)
+  /\ Line.e = "case" \/ ~NeedsGc
   /\ \/ /\ Line.e = "case"
         /\ Reset /\ table' = [progs |-> Line.progs, follow |-> Line.follow, legacy |-> Line.legacy]
         /\ host' = Line.host /\ l' = l + 1 /\ UNCHANGED <<ph, lk>>
@@ -120,7 +134,7 @@ Match ==
   /\ IsBridge => RegObs = RegOf(registry')
   /\ l' = l + 1 /\ ph' = "act" /\ UNCHANGED <<lk, host>>
 
-TNext == Act \/ Silent \/ Apply \/ Match
+TNext == Act \/ Gc \/ Silent \/ Apply \/ Match
 TSpec == TInit /\ [][TNext]_vars
 
 Progress == IF l > TLCGet(1) THEN TLCSet(1, l) ELSE TRUE
